@@ -10,8 +10,8 @@ from harness.framework import Suite
 
 PID = "C18"
 LEAN_MODS = ["SwcVerif.Props.C18", "SwcVerif.Props.C05", "SwcVerif.Props.C18Gen"]
-TRANSLATE_ALGO = ["AlgoDsu", "AlgoCheckers"]   # Gen/AlgoDsu.lean, Gen/AlgoCheckers.lean are regenerated from swcgeom/utils/dsu.py and swc_utils/base.py::get_dsu on every run
-DRIVER_FILES = ["SwcVerif/Model/AlgoRun.lean"]
+TRANSLATE_ALGO = ["AlgoDsu", "AlgoCheckers"]   # Gen/AlgoDsu.lean, Gen/AlgoCheckers.lean are regenerated from swcgeom/utils/dsu.py, swc_utils/base.py::get_dsu and swc_utils/checker.py::has_cyclic on every run
+DRIVER_FILES = ["SwcVerif/Model/AlgoRunDsu.lean"]
 THEOREMS = [
     "C18.dsu_refines_partition", "C18.runOps_cons", "C18.invalid_rejected", "C18.hasCyclic_spec", "C18.isBifurcate_correct",
     "C18.jumpPass_stop", "C18.getDsu_fixpoint", "C18.getDsu_sorted_forest", "Dsu.jumpLoop_forest", "C18.getDsu_forest", "C18.forest_single_label_iff", "Dsu.jumpLoop_conn", "C18.getDsu_labels_are_components", "C18.repair_somas", "C18.repair_nearest_partial", "Dsu.linkLoop_inv", "C18.repair_nearest_tree", "Dsu.cycle_strict", "Dsu.jumpLoop_terminates", "C18.getDsu_total", "C18.isSingleRoot_total",
@@ -20,6 +20,7 @@ THEOREMS = [
     "RefineDsu.find_refines", "RefineDsu.union_refines", "RefineDsu.same_refines", "RefineDsu.init_refines",
     "RefineDsu.script_refines", "RefineDsu.script_refines_init", "C18.generated_dsu_refines_partition",
     "RefineCheckers.getDsu_refines", "C18.generated_getDsu_eq_model", "C18.generated_getDsu_total",
+    "RefineCheckers.hasCyclic_refines", "C18.generated_hasCyclic_spec",
 ]
 TRUSTED = ["hand-written models Model/Dsu.lean of DisjointSetUnion, has_cyclic, is_bifurcate, get_dsu / is_single_root, mark_roots_as_somas_, "
            "link_roots_to_nearest_ (tied by the c18.* correspondence suites: union/find scripts, ALL parent tables with n ≤ 5, random larger ones, multi-root files)"]
@@ -234,6 +235,7 @@ class Checkers(Suite):
                ("issorted " + a, str(res["sorted"])), ("bifurcate excl=1 " + a, tf(res["bif1"])), ("bifurcate excl=0 " + a, tf(res["bif0"]))]
         if "cyclic" in res:
             out.append(("hascyclic " + a, tf(res["cyclic"])))
+            out.append(("ghascyclic " + a, tf(res["cyclic"])))     # the definition generated from has_cyclic on this run
         return out
 
     def oracle(self, case, res):
